@@ -1388,6 +1388,50 @@ theorem post_hards_squash (cfg : Cfg) (hw : cfg.wild = false) (ts : List Tok) :
   · exact runRule_fis_squash (soft cfg) (soft_colon cfg) ts
   · rfl
 
+def Seg.plain? : Seg → Option Tok
+  | .plain t => some t
+  | .region _ _ => none
+
+/-- the plain segments are a subsequence of the token list: order is kept, nothing is invented -/
+theorem segsAux_plain_sublist (cfg : Cfg) : ∀ (ts : List Tok) (n : Nat),
+    ((segsAux cfg n ts).filterMap Seg.plain?).Sublist ts := by
+  intro ts
+  induction ts with
+  | nil => intro n; simp [segsAux]
+  | cons t ts ih =>
+    intro n
+    cases n with
+    | succ n => simp only [segsAux]; exact (ih n).cons t
+    | zero =>
+      simp only [segsAux]
+      split
+      · simp only [List.filterMap_cons, Seg.plain?]; exact (ih _).cons t
+      · simp only [List.filterMap_cons, Seg.plain?]; exact (ih 0).cons_cons t
+
+theorem filter_keep_plain (cfg : Cfg) (sg : List Seg) :
+    ((sg.filter (Seg.keep cfg)).filterMap Seg.plain?) = (sg.filterMap Seg.plain?).filter (hard cfg) := by
+  induction sg with
+  | nil => rfl
+  | cons s sg ih =>
+    cases s with
+    | plain t =>
+      by_cases h : hard cfg t = true
+      · simp [Seg.keep, Seg.plain?, h, ih]
+      · simp [Seg.keep, Seg.plain?, h, ih]
+    | region k l =>
+      by_cases h : l.isEmpty = true
+      · simp only [List.filter_cons, Seg.keep, h, Bool.not_true, Bool.false_eq_true, if_false, List.filterMap_cons, Seg.plain?]
+        exact ih
+      · simp only [List.filter_cons, Seg.keep, h, Bool.not_false, if_true, List.filterMap_cons, Seg.plain?]
+        exact ih
+
+/-- the hard tokens of the certificate outside regions are a subsequence of the hard tokens of `mid cfg ts` -/
+theorem hardSeq_plain_sublist (cfg : Cfg) (ts : List Tok) :
+    ((hardSeq cfg ts).filterMap Seg.plain?).Sublist (hards cfg (mid cfg ts)) := by
+  unfold hardSeq
+  rw [filter_keep_plain]
+  exact (segsAux_plain_sublist cfg (mid cfg ts) 0).filter _
+
 /-! ## literal spelling keeps the value -/
 
 theorem upperAF {c : Char} (h : ('A' ≤ c && c ≤ 'F') = true) :
